@@ -372,7 +372,7 @@ type rbStats struct {
 
 // Allocation bound of C02: c0 + c1*octets + c2*decoded fields (see DESIGN.md, C02).
 const (
-	allocC0 = 128 << 10
+	allocC0 = 16 << 10
 	allocC1 = 1536
 	allocC2 = 1536
 )
@@ -600,7 +600,7 @@ const c01Rule = "case = history of 1..12 datagrams of one protocol (ipfix | nf9 
 
 const c02Rule = "case = history as in C01 (biased to amplification: zero-length fields, counts/lengths beyond the remaining octets, reserved set ids) with datagrams up to 1500 octets (5% of histories up to 65507 without amplifying templates); " +
 	"oracle per datagram = (a) the decode+encode call returns: a watchdog reports a call still running after 20 s or a heap grown by 1 GiB; (b) records emitted <= octets of the datagram; " +
-	"(c) bytes allocated by the call <= 128 KiB + 1536*octets + 1536*decoded fields (proportional to octets received and output produced, never to a wire length/count field); " +
+	"(c) bytes allocated by the call <= 16 KiB + 1536*octets + 1536*decoded fields (proportional to octets received and output produced, never to a wire length/count field); " +
 	"non-trivial = as C01; distinct by hash"
 
 func TestC01(t *testing.T) {
